@@ -9,6 +9,7 @@ CONSTANTS
   AllowBreak = FALSE
   AllowStall = TRUE
   Cap = 1
+  AckDropSilently = FALSE
   AllowTopo = FALSE
   Warm = TRUE
   AllowRemove = FALSE
@@ -16,5 +17,5 @@ CONSTANTS
   FixGuardedDelete = TRUE
   FixOpening = TRUE
   FixPeerKey = TRUE
-INVARIANTS MsgOrder TypeOK TableSound HealthyListed NoDup MsgSound FixpointOK
+INVARIANTS NoSilentLoss MsgOrder TypeOK TableSound HealthyListed NoDup MsgSound FixpointOK
 CHECK_DEADLOCK FALSE
